@@ -451,6 +451,11 @@ impl Drop for LocalResource {
 }
 
 fn send_packet(data: &[u8], send_method: impl Fn(&[u8]) -> io::Result<usize>) -> SendStatus {
+    if data.len() > MAX_LOCAL_PAYLOAD_LEN {
+        // No datagram can carry it. The error the OS gives for this has not a stable `ErrorKind`.
+        return SendStatus::MaxPacketSizeExceeded;
+    }
+
     loop {
         match send_method(data) {
             Ok(_) => break SendStatus::Sent,
